@@ -2,7 +2,7 @@ SPECIFICATION FairSpec
 CONSTANTS
   Inst = {1, 2}
   MaxSteps = 2
-  WantSets = {{}, {"p0"}}
+  WantSets = {{}, {"p0", "rp"}}
   Txs = {"A"}
   AllowCancel = TRUE
   DevNoCopy = FALSE
